@@ -6,8 +6,10 @@
   `scdLoop` (Real/Scd.lean, the object of the C07 theorems) enumerates, in the same order, with exponent 1/2 and
   denominator N.  A changed bound (`range(1, self.len+1)`, `range(1, m+1)`, `range(0, m)`), subscript (`m`, `n`),
   distance (`m-n+1`), exponent or denominator (`self.len-1`) breaks a proof here.
+  `scd_of_source_triples`: `scdLoop p` IS the sum of q[i]·q[j]·√dist over the triples the SOURCE's nest visits, over the source's denominator.
 -/
 import Cider.Gen.Decisions
+import Cider.Real.Scd
 namespace Cider.C07Src
 open Cider
 
@@ -62,5 +64,50 @@ theorem exp_denom_eq : Gen.scdNestExp = 1 / 2 ∧ ∀ N : Int, Gen.scdNestDenom 
 
 /-- non-vacuity: a five-residue chain visits ten pairs, the last one (4, 3, 1) -/
 example : (srcTriples 5).length = 10 ∧ (srcTriples 5).getLast? = some (4, 3, 1) := by decide
+
+/-! ### closing the chain source text → `scdLoop` (the object of every C07 theorem) -/
+
+/-- one term of the sum, from a visited triple -/
+noncomputable def term (p : Pattern) (t : Int × Int × Int) : ℝ :=
+  qAt p t.1.toNat * qAt p t.2.1.toNat * Real.sqrt ((t.2.2.toNat : ℝ))
+
+theorem sum_map_flatMap {α β : Type} (L : List α) (f : α → List β) (G : β → ℝ) :
+    ((L.flatMap f).map G).sum = (L.map (fun a => ((f a).map G).sum)).sum := by
+  induction L with
+  | nil => simp
+  | cons a L ih => simp [List.flatMap_cons, ih]
+
+/-- `scdLoop` is the sum over `modelTriples` -/
+theorem scdLoop_eq_sum_modelTriples (p : Pattern) :
+    scdLoop p = ((modelTriples p.length).map (term p)).sum / (p.length : ℝ) := by
+  unfold scdLoop modelTriples
+  congr 1
+  have inner : ∀ (m : Nat) (tot : ℝ),
+      (List.range' 1 (m - 1)).foldl (fun t n => t + qAt p (m - 1) * qAt p (n - 1) * Real.sqrt (((m - n : Nat) : ℝ))) tot
+      = tot + ((List.range' 1 (m - 1)).map (fun n => qAt p (m - 1) * qAt p (n - 1) * Real.sqrt (((m - n : Nat) : ℝ)))).sum := by
+    intro m tot
+    rw [foldl_add_real (fun n => qAt p (m - 1) * qAt p (n - 1) * Real.sqrt (((m - n : Nat) : ℝ)))]
+  simp only [inner]
+  rw [foldl_add_real (fun m => ((List.range' 1 (m - 1)).map (fun n => qAt p (m - 1) * qAt p (n - 1) * Real.sqrt (((m - n : Nat) : ℝ)))).sum),
+    zero_add, sum_map_flatMap]
+  congr 1
+  apply List.map_congr_left
+  intro m _
+  rw [List.map_map]
+  congr 1
+  apply List.map_congr_left
+  intro n _
+  simp only [Function.comp, term]
+  have h1 : ((m : Int) - 1).toNat = m - 1 := by omega
+  have h2 : ((n : Int) - 1).toNat = n - 1 := by omega
+  have h3 : ((m : Int) - (n : Int)).toNat = m - n := by omega
+  rw [h1, h2, h3]
+
+/-- SCD, as every C07 theorem knows it, is determined by the loop nest the SOURCE TEXT spells out today -/
+theorem scd_of_source_triples (p : Pattern) :
+    scdLoop p = ((srcTriples p.length).map (term p)).sum / ((Gen.scdNestDenom p.length : Int) : ℝ) := by
+  rw [triples_eq, scdLoop_eq_sum_modelTriples]
+  simp [Gen.scdNestDenom]
+
 
 end Cider.C07Src
